@@ -242,7 +242,7 @@ fn cps(s: &str) -> String {
         .join(".")
 }
 /// address of every node of the document -> its location, rendered like the model's loc_str
-fn index_doc<'a>(v: &'a Value, loc: String, out: &mut HashMap<usize, String>) {
+pub fn index_doc<'a>(v: &'a Value, loc: String, out: &mut HashMap<usize, String>) {
     out.insert(v as *const Value as usize, loc.clone());
     match v {
         Value::Array(a) => {
@@ -645,6 +645,50 @@ fn run_hist(ops: &str, seed: &str) -> R<String> {
     Ok(format!("OK\tops={} perms={} threads={} iters={}", n, perms, threads, iters))
 }
 
+/// C08: a query string against a document through every public entry point.
+/// PARSE_ERR = the string is rejected; OK = parsed and evaluated; EVAL_ERR = parsed but evaluation
+/// returned Err (forbidden: the only source of Err is an invalid query string).
+fn run_rob(query: &str, doc: &str) -> R<String> {
+    let qs = cps_to_string(&sexp::parse(query)?)?;
+    let d = doc_of(&sexp::parse(doc)?)?;
+    let parsed = parse_json_path(&qs);
+    let via_api = d.query_with_path(&qs).map(|v| v.len());
+    let _ = d.query(&qs);
+    let _ = d.query_only_path(&qs);
+    let _ = d.reference(qs.clone());
+    let mut d2 = d.clone();
+    let _ = d2.reference_mut(qs.clone());
+    Ok(match parsed {
+        Err(_) => {
+            if via_api.is_ok() {
+                "MIXED".to_string()
+            } else {
+                "PARSE_ERR".to_string()
+            }
+        }
+        Ok(q) => match js_path_process(&q, &d) {
+            Ok(res) => {
+                if via_api != Ok(res.len()) {
+                    "MIXED".to_string()
+                } else {
+                    format!("OK\t{}", res.len())
+                }
+            }
+            Err(_) => "EVAL_ERR".to_string(),
+        },
+    })
+}
+
+/// a programmatically built query (integers in the I-JSON range) against a document
+fn run_robast(ast: &str, doc: &str) -> R<String> {
+    let q = query_of(&sexp::parse(ast)?)?;
+    let d = doc_of(&sexp::parse(doc)?)?;
+    Ok(match js_path_process(&q, &d) {
+        Ok(res) => format!("OK\t{}", res.len()),
+        Err(_) => "EVAL_ERR".to_string(),
+    })
+}
+
 fn run_parse(query: &str) -> R<String> {
     let qs = cps_to_string(&sexp::parse(query)?)?;
     Ok(match parse_json_path(&qs) {
@@ -680,6 +724,8 @@ fn main() {
             ("PARSE", 3) => run_parse(f[2]),
             ("REF", 5) => run_ref(f[2], f[3], f[4]),
             ("HIST", 4) => run_hist(f[2], f[3]),
+            ("ROB", 4) => run_rob(f[2], f[3]),
+            ("ROBAST", 4) => run_robast(f[2], f[3]),
             ("GEN", 4) => second::run_gen(f[2], f[3]),
             _ => Err(format!("unknown case kind {}", f[0])),
         }));
